@@ -360,7 +360,9 @@ class _Fold(ast.NodeTransformer):
                 and all(isinstance(x.value, int) and not isinstance(x.value, bool) for x in (n.left, n.right)):
             try:
                 v = self.BIN[type(n.op)](n.left.value, n.right.value)
-                if isinstance(v, int) and 0 <= v < 2 ** 16:
+                if isinstance(v, int) and not isinstance(v, bool):
+                    # a NEGATIVE (or oversized) exact value is a literal the unsigned types cannot hold: the literal wrapper rejects it, exactly
+                    # as it rejects a written `-2` - such a program is outside the documented subset (diagnostic outcome, never a verdict)
                     return ast.copy_location(ast.Constant(v), n)
             except Exception:  # noqa
                 pass
